@@ -492,7 +492,7 @@ def font_traces(job):
         return [], skips, notes
     n = min(raw.numGlyphs, len(obs.order))
     gids = list(range(n))
-    cap = job.get("cap")
+    cap = job.get("cap") if (raw.axes or is_glyf) else job.get("cap_static", job.get("cap"))
     if cap is not None and n > cap:
         gids = sorted([0] + rng.sample(range(1, n), cap - 1))
         skip("glyph not in this tier's sample of a big font", n - len(gids))
@@ -700,7 +700,8 @@ def corpus_jobs(chk):
     for p, data in fonts.compiled_ttx_fonts():
         jobs.append({"label": common.rel(p), "data": data, "index": 0})
     for j in jobs:
-        j.update({"tier": chk.tier, "seed": chk.seed, "cap": 24 if quick else None, "maxloc": 14 if quick else 40})
+        j.update({"tier": chk.tier, "seed": chk.seed, "cap": 24 if quick else None, "cap_static": 6 if quick else None,
+                  "maxloc": 14 if quick else 40})
     return jobs
 
 
